@@ -165,7 +165,7 @@ def wf_prefix(hist, obs):
 
 
 def run(ctx, focus, theorems, refuted, monitors, nrandom=(150, 1500), per_config=(1, 4), extra_scenarios=(), wf_only=False,
-        gen_kw=None):
+        gen_kw=None, ext=False, incarnations=True):
     """monitors(hist, obs, nwf, keys) -> list of (coq bool expr, step index, kind, tags)"""
     ctx.cov["trusted_base"] = vf.TRUSTED_COMMON + [
         "harness fakes: client-go fake clientsets as the API server (pods/binding: NotFound if the pod is gone, conflict on another "
@@ -185,7 +185,7 @@ def run(ctx, focus, theorems, refuted, monitors, nrandom=(150, 1500), per_config
     hists, labels = [], []
     for name, h in fixed_scenarios() + list(extra_scenarios):
         hists.append(h); labels.append("scenario:" + name); ctx.dist("scenario:fixed")
-    for name, h in incarnation_scenarios(rng, ctx, per_config[0] if ctx.quick else per_config[1]):
+    for name, h in (incarnation_scenarios(rng, ctx, per_config[0] if ctx.quick else per_config[1]) if incarnations else []):
         hists.append(h); labels.append(name)
     n = nrandom[0] if ctx.quick else nrandom[1]
     for i in range(n):
@@ -208,11 +208,12 @@ def run(ctx, focus, theorems, refuted, monitors, nrandom=(150, 1500), per_config
                 ctx.violation("monitor", "the plugin %s during a section" % st.get("res"), {"history": h, "step": {k: v for k, v in st.items() if k != "dump"}},
                               found=True)
         o["_allspecs"] = plugingen.all_specs(h)
-        term, nsteps, trunc, meta = plugingen.translate(h, o)
+        term, nsteps, trunc, meta = plugingen.translate(h, o, ext=ext)
         if trunc:
             ctx.dist("history-truncated:" + trunc)
         ctx.dist("modelled-steps", nsteps)
-        corr.append("(chk_phist %s %s %s %s)" % (cbool(h["provider"]), cnodes(h["nodes"]), conf_trees(h["conf"]), term))
+        corr.append("(%s %s %s %s %s)" % ("chk_phist2" if ext else "chk_phist", cbool(h["provider"]), cnodes(h["nodes"]),
+                                          conf_trees(h["conf"]), term))
         nwf = wf_prefix(h, o)
         for e, si, kind, tags in monitors(h, o, nwf, keys_term(h)):
             mons.append(e); monmeta.append((hi, si, kind, tags))
@@ -249,8 +250,8 @@ def run(ctx, focus, theorems, refuted, monitors, nrandom=(150, 1500), per_config
         ex = []
         for k in bad_c[:3]:
             h, o = hists[k], obs[k]
-            term, _, _, _ = plugingen.translate(h, o)
-            where = ctx.coq_print("dbg", IMPORTS, "preplay (world_init %s %s %s) 0 %s" % (
+            term, _, _, _ = plugingen.translate(h, o, ext=ext)
+            where = ctx.coq_print("dbg", IMPORTS, "%s (world_init %s %s %s) 0 %s" % ("preplay2" if ext else "preplay",
                 cbool(h["provider"]), cnodes(h["nodes"]), conf_trees(h["conf"]), term))
             ex.append({"history": h, "label": labels[k], "first_disagreeing_modelled_step": where[-80:],
                        "observed": [{kk: vv for kk, vv in s.items() if kk != "dump"} for s in o["steps"]]})
@@ -336,5 +337,92 @@ def mon_c10(h, o, nwf, keys):
         if prev is not None:
             out.append(("(mon_freed_unassigned %s %s)" % (cwdump(prev), cwdump(d)), si, "freed_unassigned", list(tags)))
         out.append(("(log_ok [] %s)" % cloud_log(steps, si), si, "assign_wellordered", list(tags)))
+        prev = d
+    return out
+
+
+# ------------------------------------------------------------------ C07
+K2_TAG = "c07-bind-allocates-without-cap"
+
+
+def pool_scenarios(rng, ctx, n):
+    """deployments sharing the sized pool p1: pods filtered before earlier ones are bound, Pool object created / resized /
+    removed in between (informer view and API requests with pre-allocation), the K2 shape (pod filtered while no Pool object
+    is visible, Pool created, bind)"""
+    hs = []
+    conf = conf_text([POOL_A, POOL_B])
+    for i in range(n):
+        ops = []
+        ndp = rng.choice([1, 2, 3])
+        apps = ["job", "api", "web"][:ndp]
+        for a in apps:
+            ops.append({"op": "dp_set", "ns": "ns1", "name": a, "replicas": rng.choice([1, 2, 3])})
+        size = rng.choice([0, 1, 2, 3, 4])
+        start_with_pool = rng.random() < 0.7
+        if start_with_pool:
+            ops.append({"op": "pool_set", "name": "p1", "size": size})
+        pods = []
+        uid = 0
+        pending = []
+        for step in range(rng.choice([6, 9, 12])):
+            r = rng.random()
+            if r < 0.4:
+                uid += 1
+                a = rng.choice(apps)
+                p = mkpod("%s-7f9c6d-z%d" % (a, uid), "v%d" % uid, "dp", a, 0, pool="p1")
+                pods.append(p)
+                ops += [put(p), inf(p), flt(p)]
+                pending.append(p)
+            elif r < 0.65 and pending:
+                p = pending.pop(0 if rng.random() < 0.6 else -1)
+                ops.append(bnd(p, rng.choice(["node1", "node2"])))
+            elif r < 0.8:
+                size = rng.choice([0, 1, 2, 3, 4])
+                ops.append({"op": "api_pool", "name": "p1", "size": size, "prealloc": rng.random() < 0.7})
+                if rng.random() < 0.8:
+                    ops.append({"op": "pool_set", "name": "p1", "size": size})
+            elif r < 0.9:
+                ops.append({"op": "pool_set", "name": "p1", "size": rng.choice([None, 0, 1, 2, 3])})
+            elif pods:
+                p = rng.choice(pods)
+                ops += [dele(p), inf(p), {"op": "event", "n": 0}]
+        for p in pending:
+            ops.append(bnd(p, "node1"))
+        hs.append(("pool:%d" % i, {"provider": False, "nodes": NODES, "conf": conf, "ops": ops}))
+        ctx.dist("scenario:pool")
+    # K2, deterministic
+    p1 = mkpod("job-7f9c6d-k1", "k1", "dp", "job", 0, pool="p1")
+    p2 = mkpod("job-7f9c6d-k2", "k2", "dp", "job", 0, pool="p1")
+    hs.append(("K2-late-pool-object", {"provider": False, "nodes": NODES, "conf": conf, "ops": [
+        {"op": "dp_set", "ns": "ns1", "name": "job", "replicas": 2}, put(p1), inf(p1), flt(p1), put(p2), inf(p2), flt(p2),
+        {"op": "pool_set", "name": "p1", "size": 1}, bnd(p1), bnd(p2)]}))
+    return hs
+
+
+def mon_c07(h, o, nwf, keys):
+    out = []
+    steps = (o.get("steps") or [])[:nwf]
+    prev = None
+    sizes = {}                   # the Pool objects galaxy-ipam's lister shows
+    specs = {(s["Ns"], s["Name"], s["Uid"]): s for s in plugingen.all_specs(h)}
+    for si, (op, st) in enumerate(zip(h["ops"], steps)):
+        if "dump" not in st:
+            break
+        d = st["dump"]
+        k = op["op"]
+        if k == "pool_set":
+            if op.get("size") is None:
+                sizes.pop(op["name"], None)
+            else:
+                sizes[op["name"]] = op["size"]
+        if prev is not None and k in ("filter", "bind", "api_pool", "event", "resync", "api_release"):
+            for name in sorted(set(list(sizes) + ([op["name"]] if k == "api_pool" else []))):
+                size = op["size"] if (k == "api_pool" and op["name"] == name) else sizes.get(name)
+                if size is None:
+                    continue
+                tags = []
+                if k == "bind" and any(c[0] == "create" and not c[2] for c in st.get("calls") or []):
+                    tags = [K2_TAG]          # Bind allocated a fresh IP for a pool pod: no cap is consulted there
+                out.append(("(mon_pool_cap %s %s %s %s)" % (cstr(name), cN(size), cwdump(prev), cwdump(d)), si, "pool_cap", tags))
         prev = d
     return out
